@@ -27,7 +27,119 @@ typedef struct snapshot {
     void *keyval;
     ABT_xstream_state xstate;
     ABT_bool mlocked;
+    long up_live;          /* units of the user-defined pool that exist */
+    ABT_thread_state rstate; /* the terminated ULT that the revive operations use */
+    ABT_pool bpool, rpool; /* associated pools of the blocked ULT and of the terminated ULT */
 } snapshot;
+
+/* ---- a user-defined pool: associating a work unit with it makes the library allocate an
+ * entry of its unit -> work-unit map, and calls back create_unit, which may fail too ---- */
+#define UPSLOTS 32
+static struct {
+    int inited;
+    ABT_pool pool;
+    ABT_xstream xs;
+    struct { ABT_thread th; int used, queued; } slot[UPSLOTS];
+    int q[UPSLOTS], nq;
+    long creates, frees;
+    int fail_next_create, fail_fired;
+} UP;
+static ABT_thread revive_t;
+
+static ABT_unit up18_create_unit(ABT_pool pool, ABT_thread thread)
+{
+    (void)pool;
+    if (UP.fail_next_create) {
+        UP.fail_next_create = 0;
+        UP.fail_fired = 1;
+        return ABT_UNIT_NULL;
+    }
+    for (int i = 0; i < UPSLOTS; i++)
+        if (!UP.slot[i].used) {
+            UP.slot[i].used = 1;
+            UP.slot[i].queued = 0;
+            UP.slot[i].th = thread;
+            UP.creates++;
+            return (ABT_unit)&UP.slot[i];
+        }
+    sim_fail("infra:c18-user-pool-full", "user pool slots exhausted");
+    return ABT_UNIT_NULL;
+}
+static int up18_slot(ABT_unit unit)
+{
+    long i = (long)(((char *)unit - (char *)&UP.slot[0]) / (long)sizeof UP.slot[0]);
+    SIM_CHECK(i >= 0 && i < UPSLOTS && (void *)&UP.slot[i] == (void *)unit && UP.slot[i].used, "upool:unknown-unit", "a user-pool callback received a handle that is not a live unit");
+    return (int)i;
+}
+static void up18_free_unit(ABT_pool pool, ABT_unit unit)
+{
+    (void)pool;
+    int i = up18_slot(unit);
+    SIM_CHECK(!UP.slot[i].queued, "upool:free-queued-unit", "free_unit called for a unit that is still queued");
+    UP.slot[i].used = 0;
+    UP.frees++;
+}
+static ABT_bool up18_is_empty(ABT_pool pool)
+{
+    (void)pool;
+    return UP.nq == 0 ? ABT_TRUE : ABT_FALSE;
+}
+static size_t up18_get_size(ABT_pool pool)
+{
+    (void)pool;
+    return (size_t)UP.nq;
+}
+static ABT_thread up18_pop(ABT_pool pool, ABT_pool_context ctx)
+{
+    (void)pool;
+    (void)ctx;
+    if (UP.nq == 0)
+        return ABT_THREAD_NULL;
+    int i = UP.q[0];
+    for (int k = 1; k < UP.nq; k++)
+        UP.q[k - 1] = UP.q[k];
+    UP.nq--;
+    UP.slot[i].queued = 0;
+    return UP.slot[i].th;
+}
+static void up18_push(ABT_pool pool, ABT_unit unit, ABT_pool_context ctx)
+{
+    (void)pool;
+    (void)ctx;
+    int i = up18_slot(unit);
+    SIM_CHECK(!UP.slot[i].queued, "upool:push-twice", "a unit was pushed while it is already queued");
+    UP.slot[i].queued = 1;
+    UP.q[UP.nq++] = i;
+}
+static int up18_make_def(ABT_pool_user_def *def)
+{
+    int rc = ABT_pool_user_def_create(up18_create_unit, up18_free_unit, up18_is_empty, up18_pop, up18_push, def);
+    if (rc != ABT_SUCCESS)
+        return rc;
+    ABT_OK(ABT_pool_user_def_set_get_size(*def, up18_get_size));
+    return ABT_SUCCESS;
+}
+static void up18_ensure(void)
+{
+    if (UP.inited)
+        return;
+    ABT_pool_user_def def;
+    ABT_OK(up18_make_def(&def));
+    ABT_OK(ABT_pool_create(def, ABT_POOL_CONFIG_NULL, &UP.pool));
+    ABT_OK(ABT_pool_user_def_free(&def));
+    ABT_OK(ABT_xstream_create_basic(ABT_SCHED_BASIC, 1, &UP.pool, ABT_SCHED_CONFIG_NULL, &UP.xs));
+    UP.inited = 1;
+}
+static void up18_teardown(void)
+{
+    if (!UP.inited)
+        return;
+    ABT_OK(ABT_xstream_join(UP.xs));
+    ABT_OK(ABT_xstream_free(&UP.xs));
+    ABT_OK(ABT_pool_free(&UP.pool));
+    SIM_CHECK(UP.creates == UP.frees, "upool:unit-leaked", "user pool: %ld units created, %ld freed", UP.creates, UP.frees);
+    UP.inited = 0;
+}
 
 static void blocked_fn(void *arg)
 {
@@ -48,7 +160,13 @@ static void take(snapshot *s)
 {
     memset(s, 0, sizeof *s);
     ABT_OK(ABT_xstream_get_num(&s->num_xs));
+    s->up_live = UP.creates - UP.frees;
+    if (revive_t != ABT_THREAD_NULL) {
+        ABT_OK(ABT_thread_get_state(revive_t, &s->rstate));
+        ABT_OK(ABT_thread_get_last_pool(revive_t, &s->rpool));
+    }
     if (X.populated) {
+        ABT_OK(ABT_thread_get_last_pool(X.blocked, &s->bpool));
         ABT_OK(ABT_xstream_get_rank(X.xs, &s->rank));
         ABT_OK(ABT_xstream_get_state(X.xs, &s->xstate));
         ABT_OK(ABT_pool_get_size(X.pool2, &s->psize2));
@@ -63,9 +181,10 @@ static void take(snapshot *s)
 static void same(const snapshot *a, const snapshot *b, const char *op, int k)
 {
     SIM_CHECK(a->num_xs == b->num_xs && a->rank == b->rank && a->xstate == b->xstate && a->psize == b->psize && a->ptotal == b->ptotal && a->psize2 == b->psize2 &&
-                  a->bstate == b->bstate && a->keyval == b->keyval,
-              "fault:state-changed", "%s with allocation #%d failing changed pre-existing objects: num_xstreams %d->%d rank %d->%d pool size %zu->%zu total %zu->%zu blocked state %d->%d key %p->%p",
-              op, k, a->num_xs, b->num_xs, a->rank, b->rank, a->psize, b->psize, a->ptotal, b->ptotal, (int)a->bstate, (int)b->bstate, a->keyval, b->keyval);
+                  a->bstate == b->bstate && a->keyval == b->keyval && a->up_live == b->up_live && a->rstate == b->rstate && a->bpool == b->bpool && a->rpool == b->rpool,
+              "fault:state-changed", "%s with allocation #%d failing changed pre-existing objects: num_xstreams %d->%d rank %d->%d pool size %zu->%zu total %zu->%zu blocked state %d->%d key %p->%p user-pool units %ld->%ld terminated ULT state %d->%d pool changed %d/%d",
+              op, k, a->num_xs, b->num_xs, a->rank, b->rank, a->psize, b->psize, a->ptotal, b->ptotal, (int)a->bstate, (int)b->bstate, a->keyval, b->keyval, a->up_live, b->up_live,
+              (int)a->rstate, (int)b->rstate, a->bpool != b->bpool, a->rpool != b->rpool);
 }
 
 /* ------------------------------------------------------------------ operations */
@@ -75,6 +194,7 @@ typedef struct op18 {
     void (*undo)(void **h);
     void *nullh;
     int primary_ult_only;
+    int upool; /* 1: needs the user-defined pool; 2: and calls its create_unit (which may fail) */
 } op18;
 
 static void nop_fn(void *a)
@@ -187,7 +307,6 @@ static void u_thread_many(void **h)
     for (int i = 0; i < 4; i++)
         ABT_OK(ABT_thread_free(&many_h[i]));
 }
-static ABT_thread revive_t;
 static int d_thread_revive(void **h)
 {
     int rc = ABT_thread_revive(target_pool(), nop_fn, NULL, &revive_t);
@@ -198,6 +317,111 @@ static void u_thread_revive(void **h)
 {
     (void)h;
     ABT_OK(ABT_thread_join(revive_t));
+}
+/* enough creations in a row to exhaust the cached stacks and descriptors, so that the memory
+ * pools have to allocate new pages inside ABT_thread_create / ABT_task_create */
+#define NBULK 48
+static ABT_thread bulk_h[NBULK];
+static int bulk(void **h, int task)
+{
+    int rc = ABT_SUCCESS, n = 0;
+    for (; n < NBULK; n++) {
+        bulk_h[n] = POISON;
+        rc = task ? ABT_task_create(target_pool(), nop_fn, NULL, &bulk_h[n]) : ABT_thread_create(target_pool(), nop_fn, NULL, ABT_THREAD_ATTR_NULL, &bulk_h[n]);
+        if (rc != ABT_SUCCESS)
+            break;
+    }
+    if (rc != ABT_SUCCESS) {
+        SIM_CHECK(bulk_h[n] == POISON || bulk_h[n] == (task ? ABT_TASK_NULL : ABT_THREAD_NULL), "fault:dangling-handle", "creation #%d of a series failed with %d and left handle %p", n, rc, (void *)bulk_h[n]);
+        while (n-- > 0)
+            ABT_OK(ABT_thread_free(&bulk_h[n]));
+        return rc;
+    }
+    *h = (void *)bulk_h;
+    return ABT_SUCCESS;
+}
+static int d_thread_create_bulk(void **h)
+{
+    return bulk(h, 0);
+}
+static int d_task_create_bulk(void **h)
+{
+    return bulk(h, 1);
+}
+static void u_bulk(void **h)
+{
+    (void)h;
+    for (int i = 0; i < NBULK; i++)
+        ABT_OK(ABT_thread_free(&bulk_h[i]));
+}
+static int d_thread_create_upool(void **h)
+{
+    return ABT_thread_create(UP.pool, nop_fn, NULL, ABT_THREAD_ATTR_NULL, (ABT_thread *)h);
+}
+static int d_task_create_upool(void **h)
+{
+    return ABT_task_create(UP.pool, nop_fn, NULL, (ABT_task *)h);
+}
+static int d_thread_revive_upool(void **h)
+{
+    int rc = ABT_thread_revive(UP.pool, nop_fn, NULL, &revive_t);
+    *h = rc == ABT_SUCCESS ? (void *)revive_t : POISON;
+    return rc;
+}
+static void u_thread_revive_upool(void **h)
+{
+    (void)h;
+    ABT_OK(ABT_thread_join(revive_t));
+    /* back to a built-in pool (needs no allocation), so that the next attempt associates it
+     * with the user-defined pool again */
+    ABT_OK(ABT_thread_revive(target_pool(), nop_fn, NULL, &revive_t));
+    ABT_OK(ABT_thread_join(revive_t));
+}
+static int d_set_assoc_upool(void **h)
+{
+    int rc = ABT_thread_set_associated_pool(X.blocked, UP.pool);
+    *h = rc == ABT_SUCCESS ? (void *)X.blocked : POISON;
+    return rc;
+}
+static void u_set_assoc_upool(void **h)
+{
+    (void)h;
+    ABT_OK(ABT_thread_set_associated_pool(X.blocked, X.pool));
+}
+static int d_pool_create_user(void **h)
+{
+    ABT_pool_user_def def;
+    int rc = up18_make_def(&def);
+    if (rc != ABT_SUCCESS)
+        return rc;
+    rc = ABT_pool_create(def, ABT_POOL_CONFIG_NULL, (ABT_pool *)h);
+    ABT_OK(ABT_pool_user_def_free(&def));
+    return rc;
+}
+static int s18_init(ABT_sched s, ABT_sched_config c)
+{
+    (void)s;
+    (void)c;
+    return ABT_SUCCESS;
+}
+static void s18_run(ABT_sched s)
+{
+    (void)s;
+}
+static int s18_free(ABT_sched s)
+{
+    (void)s;
+    return ABT_SUCCESS;
+}
+static int d_sched_create_user(void **h)
+{
+    ABT_sched_def def = { .type = ABT_SCHED_TYPE_ULT, .init = s18_init, .run = s18_run, .free = s18_free, .get_migr_pool = NULL };
+    /* no pool given: the library creates one */
+    return ABT_sched_create(&def, 0, NULL, ABT_SCHED_CONFIG_NULL, (ABT_sched *)h);
+}
+static int d_xstream_create_with_rank(void **h)
+{
+    return ABT_xstream_create_with_rank(ABT_SCHED_NULL, 40, (ABT_xstream *)h);
 }
 static int d_key_create(void **h)
 {
@@ -289,6 +513,15 @@ static const op18 OPS[] = {
     { "ABT_task_create", d_task_create, u_thread, ABT_TASK_NULL, 0 },
     { "ABT_thread_create_many", d_thread_create_many, u_thread_many, POISON, 0 },
     { "ABT_thread_revive", d_thread_revive, u_thread_revive, POISON, 0 },
+    { "ABT_thread_create(x48)", d_thread_create_bulk, u_bulk, POISON, 0, 0 },
+    { "ABT_task_create(x48)", d_task_create_bulk, u_bulk, POISON, 0, 0 },
+    { "ABT_thread_create(user_pool)", d_thread_create_upool, u_thread, ABT_THREAD_NULL, 0, 2 },
+    { "ABT_task_create(user_pool)", d_task_create_upool, u_thread, ABT_TASK_NULL, 0, 2 },
+    { "ABT_thread_revive(user_pool)", d_thread_revive_upool, u_thread_revive_upool, POISON, 0, 2 },
+    { "ABT_thread_set_associated_pool(user_pool)", d_set_assoc_upool, u_set_assoc_upool, POISON, 2, 2 },
+    { "ABT_pool_create(user_def)", d_pool_create_user, u_pool, ABT_POOL_NULL, 0, 0 },
+    { "ABT_sched_create(user_def)", d_sched_create_user, u_sched, ABT_SCHED_NULL, 0, 0 },
+    { "ABT_xstream_create_with_rank", d_xstream_create_with_rank, u_xstream, ABT_XSTREAM_NULL, 0, 0 },
     { "ABT_key_create", d_key_create, u_key, ABT_KEY_NULL, 0 },
     { "ABT_key_set(x24)", d_key_set_many, u_key_set_many, POISON, 0 },
     { "ABT_thread_migrate_to_pool", d_migrate_request, u_none, POISON, 2 },
@@ -322,51 +555,74 @@ static void follow_up(const char *op)
     sim_progress();
 }
 
+/* one attempt with a fault armed: allocation #k fails (k > 0), or the user pool's create_unit
+ * fails (k == 0).  Returns 0 when the armed fault did not fire. */
+static int attempt(const op18 *o, int k)
+{
+    snapshot before, after;
+    take(&before);
+    void *h = POISON;
+    if (k > 0)
+        sim_alloc_arm(k, g_res_kinds);
+    else {
+        UP.fail_next_create = 1;
+        UP.fail_fired = 0;
+    }
+    int rc = o->doit(&h);
+    int fired = k > 0 ? sim_alloc_fired() : UP.fail_fired;
+    sim_alloc_arm(0, 0);
+    UP.fail_next_create = 0;
+    if (!fired) {
+        /* k exceeds the number of allocation-class calls of this call: it ran fault-free */
+        SIM_CHECK(rc == ABT_SUCCESS, "fault:spurious-error", "%s failed with %d although no allocation failed (k=%d)", o->name, rc, k);
+        o->undo(&h);
+        return 0;
+    }
+    n_faults_total++;
+    if (rc == ABT_SUCCESS) {
+        /* fully succeeded through a fall-back (e.g. another large-page type, non-strict
+         * stack guard): the object must be complete */
+        SIM_CHECK(k > 0, "fault:error-swallowed", "%s returned ABT_SUCCESS although create_unit of the target pool failed", o->name);
+        n_success_despite_fault++;
+        o->undo(&h);
+    } else {
+        n_failures++;
+        SIM_CHECK(h == POISON || h == o->nullh, "fault:dangling-handle", "%s with %s #%d failing returned %d and left handle %p (neither untouched nor the NULL handle)", o->name,
+                  k > 0 ? "allocation" : "create_unit", k, rc, h);
+        take(&after);
+        same(&before, &after, o->name, k);
+        /* the same call succeeds when retried without the failure */
+        h = POISON;
+        rc = o->doit(&h);
+        SIM_CHECK(rc == ABT_SUCCESS, "fault:retry-failed", "%s failed with %d when retried after %s #%d had failed", o->name, rc, k > 0 ? "allocation" : "create_unit", k);
+        o->undo(&h);
+    }
+    follow_up(o->name);
+    return 1;
+}
+
 static void enumerate(const op18 *o)
 {
     char nm[80];
+    if (o->upool)
+        up18_ensure();
     for (int k = 1; k < 200; k++) {
-        snapshot before, after;
-        take(&before);
-        void *h = POISON;
-        sim_alloc_arm(k, g_res_kinds);
-        int rc = o->doit(&h);
-        int fired = sim_alloc_fired();
-        sim_alloc_arm(0, 0);
-        if (!fired) {
-            /* k exceeds the number of allocation-class calls of this call: it ran fault-free */
-            SIM_CHECK(rc == ABT_SUCCESS, "fault:spurious-error", "%s failed with %d although no allocation failed (k=%d)", o->name, rc, k);
-            o->undo(&h);
+        if (!attempt(o, k)) {
             n_ops_enumerated++;
             snprintf(nm, sizeof nm, "c18.sites.%s", o->name);
             sim_count(nm, (uint64_t)(k - 1));
             break;
         }
-        n_faults_total++;
-        if (rc == ABT_SUCCESS) {
-            /* fully succeeded through a fall-back (e.g. another large-page type, non-strict
-             * stack guard): the object must be complete */
-            n_success_despite_fault++;
-            o->undo(&h);
-        } else {
-            n_failures++;
-            SIM_CHECK(h == POISON || h == o->nullh, "fault:dangling-handle", "%s with allocation #%d failing returned %d and left handle %p (neither untouched nor the NULL handle)",
-                      o->name, k, rc, h);
-            take(&after);
-            same(&before, &after, o->name, k);
-            /* the same call succeeds when retried without the failure */
-            h = POISON;
-            rc = o->doit(&h);
-            SIM_CHECK(rc == ABT_SUCCESS, "fault:retry-failed", "%s failed with %d when retried after allocation #%d had failed", o->name, rc, k);
-            o->undo(&h);
-        }
-        follow_up(o->name);
     }
+    if (o->upool == 2 && attempt(o, 0))
+        sim_count("c18.create_unit_failures", 1);
 }
 
 static void run_c18(void)
 {
     memset(&X, 0, sizeof X);
+    memset(&UP, 0, sizeof UP);
+    revive_t = ABT_THREAD_NULL;
     n_failures = n_success_despite_fault = n_ops_enumerated = n_faults_total = 0;
     sim_allow_faults((1u << SIM_F_STALL) | (1u << SIM_F_SLOW_NODE));
     wl_env_swarm();
@@ -451,6 +707,7 @@ static void run_c18(void)
     }
     follow_up("all");
     ABT_OK(ABT_thread_free(&revive_t));
+    up18_teardown();
     if (X.populated) {
         if (X.concurrent) {
             X.bg_stop = 1;
